@@ -318,6 +318,9 @@ pub struct CoSubject {
 }
 
 impl Subject for CoSubject {
+    fn quiescent_verdict(&self) -> Option<Result<(), String>> {
+        Some(CoSubject::pending_verdict())
+    }
     fn poll(&mut self, cx: &mut Context<'_>) -> Polled {
         match self.fut.as_mut().unwrap().as_mut().poll(cx) {
             Poll::Pending => Polled::Pending,
@@ -326,6 +329,41 @@ impl Subject for CoSubject {
                 Polled::Done(r)
             }
         }
+    }
+}
+
+impl CoSubject {
+    /// Is it legitimate for the operation to sit Pending with no wake-up outstanding?
+    fn pending_verdict() -> Result<(), String> {
+        let (stack, src_child, home) = co(|c| (c.stack.clone(), c.src_child, c.home));
+        let n_min = stack.iter().filter_map(|o| if let Op::Take(n) = o { Some(*n) } else { None }).min();
+        with(|w| {
+            let c = &w.combs[0];
+            if home == 14 {
+                if let Some(f) = c.children.iter().copied().find(|&ch| w.children[ch as usize].finished && w.children[ch as usize].is_err) {
+                    return Err(format!("fallible concurrent-stream operation is still Pending with no wake-up outstanding although work future {} has resolved to Err", f));
+                }
+            }
+            let blocked = |ch: u32| {
+                let r = &w.children[ch as usize];
+                !r.finished && (r.spec.never || r.seq >= r.never_after)
+            };
+            let work_blocked = c.children.iter().copied().any(|ch| ch != src_child && blocked(ch));
+            if work_blocked {
+                return Ok(());
+            }
+            let work_unfinished = c.children.iter().copied().filter(|&ch| ch != src_child && !w.children[ch as usize].finished).count();
+            if src_child != VEC_SRC && blocked(src_child) {
+                // waiting for a source that will never deliver again is fine - unless take(n) already has its n items
+                let pulled = w.children[src_child as usize].seq as usize;
+                return match n_min {
+                    Some(n) if pulled >= n && work_unfinished == 0 => Err(format!(
+                        "take({}) has been handed {} source items and every work future has completed, but the operation still waits for the source", n, pulled)),
+                    _ => Ok(()),
+                };
+            }
+            Err("concurrent-stream operation is Pending with no wake-up outstanding although none of its children is blocked".to_string())
+        })
     }
 }
 
@@ -519,6 +557,12 @@ pub fn runner(item: &PItem) {
     let l = item.u("l", 2);
     let vec_src = item.s("src") == "vec";
     let src_child = if vec_src { VEC_SRC } else { with(|w| w.new_child(0, 0, true, false, spec_for(item, 0))) };
+    if !vec_src {
+        // `sna=k`: the source stays Pending forever once it has produced k items
+        if let Some(k) = item.kv.get("sna").and_then(|v| v.parse::<u16>().ok()) {
+            with(|w| w.children[src_child as usize].never_after = k);
+        }
+    }
     co(|c| {
         *c = CoLog { inv: Vec::new(), stack: stack.clone(), term: Some(term), eff_limit, src_child, vec_len: l, wp: item.u("wp", 1) as u8, wnv: item.u("wnv", 0) as u32, home, created: 0 };
     });
